@@ -14,8 +14,14 @@
   tasks.  No bound on any length.
 
   Model after the proposed fix C10-F1 (NaivePBESolver divided by zero on a task without examples).
+
+  Section "restart solver" (after the non-vacuity examples of A and B): RestartPBESolver over
+  MetaPBESolver — theorems `C10_restart_*`, findings C10-F2 / C10-F3 with their witnesses.
 -/
 import PS.Proofs.Solver
+import PS.Proofs.SolverRestartStats
+import PS.Proofs.SolverRestartGrammarRows
+import PS.Proofs.SolverRestartFuel
 import PS.Props.C11
 set_option linter.unusedSectionVars false
 namespace PS.C10
@@ -391,5 +397,704 @@ example : (solve (test .naive (dslEv S true) [([0], 7)]) Solver.init [] [C11.Exa
 example : (solve (test .cutoff (dslEv S true) [([2], 7)]) Solver.init [] [C11.Example.divp, C11.Example.big] [] [true]).yielded
     = [C11.Example.big] := by decide
 end Example
+
+/-! ## restart solver -/
+/-
+  RestartPBESolver (synth/pbe/solvers/restart_pbe_solver.py) over MetaPBESolver
+  (pbe_solver.py:132-190); model: PS/Model/SolverRestart.lean, lemmas: PS/Proofs/SolverRestart*.lean.
+  Quantification: every enumerator interface (`prm.stream`: finite or infinite streams), every restart
+  criterion (any Bool function of the solver object), every restart function (enumerator × `_data` →
+  enumerator), both sub-solvers, every faithful evaluator, every task, answer stream, clock, prior
+  state `s` of the solver object, and every amount `fuel` of loop iterations (the real loop need not
+  terminate).  `segProgs prm k spec exs fuel s en` is the SEGMENTED enumeration: segment i is the
+  prefix of the i-th enumerator's stream consumed before the (i+1)-th restart (`C10_restart_segments`).
+  Switches `prm.fixNext` / `prm.fixStats`: the proposed repairs C10-F2 / C10-F3 (false = the code as it is).
+-/
+section restart
+variable {En : Type}
+
+/-- **C10_restart_refines.** The restart solver behaves as the plain solver (section A) run on the
+    segmented enumeration: same yielded programs, corresponding end (`toBase`: the end of the
+    segmented enumeration — StopIteration, normal end after the repair, or fuel used up — is the plain
+    solver's "exhausted"), same counter `_programs`, same evaluator state. -/
+theorem C10_restart_refines {ev : Ev St P I V E} {spec : P → I → Outcome V E} {Inv : St → Prop}
+    (hF : Faithful ev spec Inv) (prm : Params En P) (k : Kind) (exs : List (I × V)) (fuel : Nat)
+    (s : RSolver P) (st : St) (hst : Inv st) (en : En) (dl as : List Bool) (bs : Solver P) :
+    (solveR prm (test k ev exs) fuel s st en dl as).yielded =
+      (solve (test k ev exs) bs st (segProgs prm k spec exs fuel s en) dl as).yielded ∧
+    (solveR prm (test k ev exs) fuel s st en dl as).status.toBase =
+      (solve (test k ev exs) bs st (segProgs prm k spec exs fuel s en) dl as).status ∧
+    (solveR prm (test k ev exs) fuel s st en dl as).solver.self.programs =
+      (solve (test k ev exs) bs st (segProgs prm k spec exs fuel s en) dl as).solver.programs ∧
+    (solveR prm (test k ev exs) fuel s st en dl as).st =
+      (solve (test k ev exs) bs st (segProgs prm k spec exs fuel s en) dl as).st :=
+  sim (refinesS_of_faithful hF k exs) fuel (initTaskR s) st en 0 dl as (initTask bs) hst rfl
+
+/-- **C10_restart_yields.** The programs yielded are exactly, in order, the programs of the segmented
+    enumeration that satisfy every example — among those consumed before an outside event (deadline,
+    escaping exception) — up to and including the first one answered True. -/
+theorem C10_restart_yields {ev : Ev St P I V E} {spec : P → I → Outcome V E} {Inv : St → Prop}
+    (hF : Faithful ev spec Inv) (prm : Params En P) (k : Kind) (exs : List (I × V)) (fuel : Nat)
+    (s : RSolver P) (st : St) (hst : Inv st) (en : En) (dl as : List Bool) :
+    (solveR prm (test k ev exs) fuel s st en dl as).yielded =
+      upToAccepted (((segProgs prm k spec exs fuel s en).take
+        (horizon (verdict k spec exs) (segProgs prm k spec exs fuel s en) dl)).filter (sat spec exs)) as := by
+  rw [(C10_restart_refines hF prm k exs fuel s st hst en dl as Solver.init).1]
+  exact C10_yields hF k exs Solver.init st hst _ dl as
+
+/-- **C10_restart_never_wrong.** Every yielded program was produced by one of the enumerators (it is
+    an entry of the segmented enumeration, at its position of its enumerator's stream) and its
+    evaluation on every example input equals the example output. -/
+theorem C10_restart_never_wrong {ev : Ev St P I V E} {spec : P → I → Outcome V E} {Inv : St → Prop}
+    (hF : Faithful ev spec Inv) (prm : Params En P) (k : Kind) (exs : List (I × V)) (fuel : Nat)
+    (s : RSolver P) (st : St) (hst : Inv st) (en : En) (dl as : List Bool) (p : P)
+    (hp : p ∈ (solveR prm (test k ev exs) fuel s st en dl as).yielded) :
+    (∃ e ∈ segOf prm k spec exs fuel s en, e.p = p ∧ prm.stream e.en e.pos = some p) ∧
+    ∀ ex ∈ exs, spec p ex.1 = .value ex.2 := by
+  rw [(C10_restart_refines hF prm k exs fuel s st hst en dl as Solver.init).1] at hp
+  obtain ⟨h1, h2⟩ := C10_never_wrong hF k exs Solver.init st hst _ dl as p hp
+  refine ⟨?_, h2⟩
+  obtain ⟨e, he, hep⟩ := List.mem_map.mp h1
+  obtain ⟨pre, post, hsplit⟩ := List.append_of_mem he
+  obtain ⟨g1, _⟩ := segRun_entry fuel (initTaskR s) en 0 pre e post hsplit
+  exact ⟨e, he, hep, by rw [← hep]; exact g1⟩
+
+/-- **C10_restart_never_skips.** A program of the segmented enumeration that satisfies every example
+    and that the solver went past (its position is below the final value of `_programs`) was yielded. -/
+theorem C10_restart_never_skips {ev : Ev St P I V E} {spec : P → I → Outcome V E} {Inv : St → Prop}
+    (hF : Faithful ev spec Inv) (prm : Params En P) (k : Kind) (exs : List (I × V)) (fuel : Nat)
+    (s : RSolver P) (st : St) (hst : Inv st) (en : En) (dl as : List Bool)
+    (pre : List P) (q : P) (post : List P) (hseg : segProgs prm k spec exs fuel s en = pre ++ q :: post)
+    (hq : ∀ ex ∈ exs, spec q ex.1 = .value ex.2)
+    (hpast : pre.length < (solveR prm (test k ev exs) fuel s st en dl as).solver.self.programs) :
+    q ∈ (solveR prm (test k ev exs) fuel s st en dl as).yielded := by
+  obtain ⟨h1, _, h3, _⟩ := C10_restart_refines hF prm k exs fuel s st hst en dl as Solver.init
+  rw [h1]
+  rw [h3] at hpast
+  rw [hseg] at hpast ⊢
+  exact C10_never_skips hF k exs Solver.init st hst pre q post dl as hq hpast
+
+/-- **C10_restart_exhausted.** If the generator ends because the current enumerator's stream ended
+    (normally after the repair C10-F2, with StopIteration → RuntimeError as the code is), every
+    satisfying program of the segmented enumeration was yielded, and the statistics are untouched
+    (`_close_task_solving_` is not called on this path, as for the plain solver). -/
+theorem C10_restart_exhausted {ev : Ev St P I V E} {spec : P → I → Outcome V E} {Inv : St → Prop}
+    (hF : Faithful ev spec Inv) (prm : Params En P) (k : Kind) (exs : List (I × V)) (fuel : Nat)
+    (s : RSolver P) (st : St) (hst : Inv st) (en : En) (dl as : List Bool)
+    (hend : (solveR prm (test k ev exs) fuel s st en dl as).status = .finished .exhausted ∨
+            (solveR prm (test k ev exs) fuel s st en dl as).status = .finished .stopIteration) :
+    (solveR prm (test k ev exs) fuel s st en dl as).yielded =
+      (segProgs prm k spec exs fuel s en).filter (sat spec exs) ∧
+    (solveR prm (test k ev exs) fuel s st en dl as).solver.self.statsPrograms = s.self.statsPrograms ∧
+    (solveR prm (test k ev exs) fuel s st en dl as).solver.statsRestarts = s.statsRestarts ∧
+    (solveR prm (test k ev exs) fuel s st en dl as).solver.self.programs =
+      (segProgs prm k spec exs fuel s en).length := by
+  obtain ⟨h1, h2, h3, _⟩ := C10_restart_refines hF prm k exs fuel s st hst en dl as Solver.init
+  have hb : (solve (test k ev exs) Solver.init st (segProgs prm k spec exs fuel s en) dl as).status
+      = .finished .exhausted := by
+    rw [← h2]; rcases hend with h | h <;> rw [h] <;> rfl
+  obtain ⟨g1, _, g3⟩ := C10_exhausted hF k exs Solver.init st hst _ dl as hb
+  have hfr : Frame (initTaskR s) (solveR prm (test k ev exs) fuel s st en dl as).solver := by
+    apply unclosed_frame <;> (rcases hend with h | h <;> rw [solveR] at h <;> rw [h] <;> simp)
+  exact ⟨by rw [h1, g1], hfr.selfStatsPrograms, hfr.statsRestarts, by rw [h3, g3]⟩
+
+/-- **C10_restart_ends_normally_partial.** Full statement (violated by the code as it is, finding
+    C10-F2): *a run never ends with an exception that no evaluation raised*.  Proved under the
+    decidable hypothesis "the repair `next(gen, None)` is in place"; without it the end of an
+    enumerator's stream is a `StopIteration` inside the generator, i.e. a RuntimeError
+    (`finding_C10_restart_stop_iteration` below). -/
+theorem C10_restart_ends_normally_partial (prm : Params En P) (T : St → P → St × Except E (Bool × Score))
+    (hfix : prm.fixNext = true) (fuel : Nat) (s : RSolver P) (st : St) (en : En) (dl as : List Bool) :
+    (solveR prm T fuel s st en dl as).status ≠ .finished .stopIteration := by
+  intro h
+  have := (end_of_stream (prm := prm) (T := T) fuel (initTaskR s) st en 0 dl as).2 h
+  rw [hfix] at this; cases this
+
+/-- … and as the code is, a run never ends *normally* at the end of a stream -/
+theorem C10_restart_never_exhausted_unrepaired (prm : Params En P) (T : St → P → St × Except E (Bool × Score))
+    (hfix : prm.fixNext = false) (fuel : Nat) (s : RSolver P) (st : St) (en : En) (dl as : List Bool) :
+    (solveR prm T fuel s st en dl as).status ≠ .finished .exhausted := by
+  intro h
+  have := (end_of_stream (prm := prm) (T := T) fuel (initTaskR s) st en 0 dl as).1 h
+  rw [hfix] at this; cases this
+
+/-- **C10_restart_rank.** When a solution is accepted, it is the program of an entry `e` of the
+    segmented enumeration, at rank `pre.length + 1`; every satisfying program before it was yielded
+    (and refused); the task is closed: `get_stats("programs")` is `statsBase + rank` — where
+    `statsBase` is the meta solver's previous value after the repair C10-F3 and the *sub-solver's*
+    value as the code is —, `get_stats("restarts")` grew by the number of restarts (segments started
+    after the first entry), 'program_probability' is that of the accepted program. -/
+theorem C10_restart_rank {ev : Ev St P I V E} {spec : P → I → Outcome V E} {Inv : St → Prop}
+    (hF : Faithful ev spec Inv) (prm : Params En P) (k : Kind) (exs : List (I × V)) (fuel : Nat)
+    (s : RSolver P) (st : St) (hst : Inv st) (en : En) (dl as : List Bool)
+    (hend : (solveR prm (test k ev exs) fuel s st en dl as).status = .finished .accepted) :
+    ∃ pre e post, segOf prm k spec exs fuel s en = pre ++ e :: post ∧
+      (∀ ex ∈ exs, spec e.p ex.1 = .value ex.2) ∧
+      (solveR prm (test k ev exs) fuel s st en dl as).yielded = (pre.map (·.p)).filter (sat spec exs) ++ [e.p] ∧
+      (solveR prm (test k ev exs) fuel s st en dl as).solver.self.statsPrograms =
+        statsBase prm.fixStats (initTaskR s) + (pre.length + 1) ∧
+      (solveR prm (test k ev exs) fuel s st en dl as).solver.statsRestarts =
+        s.statsRestarts + starts (pre ++ [e]).tail ∧
+      (solveR prm (test k ev exs) fuel s st en dl as).solver.self.statsLast = some e.p := by
+  have hT := refinesS_of_faithful hF k exs
+  obtain ⟨pre, e, post, sc, hsplit, hte, hsol⟩ :=
+    accepted_specR (prm := prm) hT fuel (initTaskR s) st en 0 dl as hst hend
+  obtain ⟨_, g2, _, g4, g5⟩ := segRun_entry fuel (initTaskR s) en 0 pre e post hsplit
+  -- the plain solver on the segmented enumeration accepts the same program
+  obtain ⟨h1, h2, h3, _⟩ := C10_restart_refines hF prm k exs fuel s st hst en dl as Solver.init
+  have hb : (solve (test k ev exs) Solver.init st (segProgs prm k spec exs fuel s en) dl as).status
+      = .finished .accepted := by rw [← h2, hend]; rfl
+  obtain ⟨pre', p', post', he', hp', hy', hs', _⟩ := C10_rank hF k exs Solver.init st hst _ dl as hb
+  have hprog : (solveR prm (test k ev exs) fuel s st en dl as).solver.self.programs = pre.length + 1 := by
+    rw [solveR, hsol, closeR_programs]; simp [testedS, countedS, g2, initTaskR, initTask]
+  have hprog' : (solve (test k ev exs) Solver.init st (segProgs prm k spec exs fuel s en) dl as).solver.programs
+      = pre'.length + 1 := by
+    have := (base_stats (T := test k ev exs) (segProgs prm k spec exs fuel s en) (initTask Solver.init) st dl as).1
+      (Or.inl hb)
+    simp only [solve] at hs' this ⊢
+    rw [hs'] at this
+    simp [initTask, Solver.init] at this ⊢
+    omega
+  have hlen : pre'.length = pre.length := by rw [h3, hprog'] at hprog; omega
+  have hes : segProgs prm k spec exs fuel s en = pre.map (·.p) ++ e.p :: post.map (·.p) := by
+    simp [segProgs, segOf, hsplit]
+  rw [hes] at he'
+  obtain ⟨q1, q2⟩ := List.append_inj he' (by simp [hlen])
+  simp only [List.cons.injEq] at q2
+  refine ⟨pre, e, post, hsplit, ?_, ?_, ?_, ?_, ?_⟩
+  · rw [q2.1]; exact hp'
+  · rw [h1, hy', q1, q2.1]
+  · rw [solveR, hsol, closeR_statsPrograms, statsBase_frame (g5.trans (frame_testedS e.s sc))]
+    simp [testedS, countedS, g2, initTaskR, initTask]
+  · rw [solveR, hsol, closeR_statsRestarts]
+    simp [testedS, countedS, g4, g5.statsRestarts, initTaskR]
+  · rw [solveR, hsol]; exact (closeR_statsLast _ _ _).1
+
+set_option linter.unusedSimpArgs false in
+/-- **C10_restart_rank_partial.** Full statement (violated by the code as it is, finding C10-F3):
+    *on acceptance `get_stats("programs")` grew by the rank of the accepted program in the segmented
+    enumeration, whatever the statistics accumulated by earlier tasks*.  Proved under the decidable
+    hypothesis that the repair C10-F3 is in place or that the meta solver's and the sub-solver's
+    counts agree before the task (in a session: no task was closed since the construction of the
+    solver or the last `reset_stats`, see `C10_restart_session_sub`); witness of the violation:
+    `finding_C10_restart_stats_not_cumulative`. -/
+theorem C10_restart_rank_partial {ev : Ev St P I V E} {spec : P → I → Outcome V E} {Inv : St → Prop}
+    (hF : Faithful ev spec Inv) (prm : Params En P) (k : Kind) (exs : List (I × V)) (fuel : Nat)
+    (s : RSolver P) (st : St) (hst : Inv st) (en : En) (dl as : List Bool)
+    (hyp : prm.fixStats = true ∨ s.self.statsPrograms = s.sub.statsPrograms)
+    (hend : (solveR prm (test k ev exs) fuel s st en dl as).status = .finished .accepted) :
+    ∃ pre e post, segOf prm k spec exs fuel s en = pre ++ e :: post ∧
+      (solveR prm (test k ev exs) fuel s st en dl as).solver.self.statsPrograms =
+        s.self.statsPrograms + (pre.length + 1) ∧
+      (solveR prm (test k ev exs) fuel s st en dl as).solver.statsRestarts =
+        s.statsRestarts + starts (pre ++ [e]).tail := by
+  obtain ⟨pre, e, post, h1, _, _, h4, h5, _⟩ := C10_restart_rank hF prm k exs fuel s st hst en dl as hend
+  refine ⟨pre, e, post, h1, ?_, h5⟩
+  rw [h4]
+  rcases hyp with h | h
+  · simp [statsBase, h, initTaskR, initTask]
+  · cases hfx : prm.fixStats <;> simp [statsBase, hfx, h, initTaskR, initTask]
+
+/-- **C10_restart_timeout.** When the deadline strikes before the entry `e` of the segmented
+    enumeration is tested: what satisfied before was yielded, the task is closed with
+    `get_stats("programs") = statsBase + number of programs tested`, 'restarts' grew by the number
+    of restarts. -/
+theorem C10_restart_timeout {ev : Ev St P I V E} {spec : P → I → Outcome V E} {Inv : St → Prop}
+    (hF : Faithful ev spec Inv) (prm : Params En P) (k : Kind) (exs : List (I × V)) (fuel : Nat)
+    (s : RSolver P) (st : St) (hst : Inv st) (en : En) (dl as : List Bool)
+    (hend : (solveR prm (test k ev exs) fuel s st en dl as).status = .finished .timeout) :
+    ∃ pre e post, segOf prm k spec exs fuel s en = pre ++ e :: post ∧
+      (solveR prm (test k ev exs) fuel s st en dl as).yielded = (pre.map (·.p)).filter (sat spec exs) ∧
+      (solveR prm (test k ev exs) fuel s st en dl as).solver.self.statsPrograms =
+        statsBase prm.fixStats (initTaskR s) + pre.length ∧
+      (solveR prm (test k ev exs) fuel s st en dl as).solver.statsRestarts =
+        s.statsRestarts + starts (pre ++ [e]).tail ∧
+      (solveR prm (test k ev exs) fuel s st en dl as).solver.self.statsLast = some e.p := by
+  have hT := refinesS_of_faithful hF k exs
+  obtain ⟨pre, e, post, hsplit, hsol⟩ :=
+    timeout_specR (prm := prm) hT fuel (initTaskR s) st en 0 dl as hst hend
+  obtain ⟨_, g2, _, g4, g5⟩ := segRun_entry fuel (initTaskR s) en 0 pre e post hsplit
+  obtain ⟨h1, h2, h3, _⟩ := C10_restart_refines hF prm k exs fuel s st hst en dl as Solver.init
+  have hb : (solve (test k ev exs) Solver.init st (segProgs prm k spec exs fuel s en) dl as).status
+      = .finished .timeout := by rw [← h2, hend]; rfl
+  obtain ⟨pre', p', post', he', hy', hs', _⟩ := C10_timeout hF k exs Solver.init st hst _ dl as hb
+  have hprog : (solveR prm (test k ev exs) fuel s st en dl as).solver.self.programs = pre.length := by
+    rw [solveR, hsol, closeR_programs]; simp [g2, initTaskR, initTask]
+  have hprog' : (solve (test k ev exs) Solver.init st (segProgs prm k spec exs fuel s en) dl as).solver.programs
+      = pre'.length := by
+    have := (base_stats (T := test k ev exs) (segProgs prm k spec exs fuel s en) (initTask Solver.init) st dl as).1
+      (Or.inr hb)
+    simp only [solve] at hs' this ⊢
+    rw [hs'] at this
+    simp [initTask, Solver.init] at this ⊢
+    omega
+  have hlen : pre'.length = pre.length := by rw [h3, hprog'] at hprog; omega
+  have hes : segProgs prm k spec exs fuel s en = pre.map (·.p) ++ e.p :: post.map (·.p) := by
+    simp [segProgs, segOf, hsplit]
+  rw [hes] at he'
+  obtain ⟨q1, _⟩ := List.append_inj he' (by simp [hlen])
+  refine ⟨pre, e, post, hsplit, by rw [h1, hy', q1], ?_, ?_, ?_⟩
+  · rw [solveR, hsol, closeR_statsPrograms, statsBase_frame g5]
+    simp [g2, initTaskR, initTask]
+  · rw [solveR, hsol, closeR_statsRestarts]
+    simp [g4, g5.statsRestarts, initTaskR]
+  · rw [solveR, hsol]; exact (closeR_statsLast _ _ _).1
+
+/-- **C10_restart_resume.** Let `p` be the first program of the segmented enumeration that passes the
+    test (those of `pre` are rejected, the clock does not strike up to `p`).  Then `p` is yielded first, and
+      * answering True ends the generator at once (accepted; `C10_restart_rank`: the task is closed),
+      * answering False resumes the search at the next program *of the segmented enumeration* — the
+        next program of the current enumerator, or the first program of the restarted one —: what
+        follows is what `post` gives with the remaining answers and clock,
+      * not answering leaves the generator suspended. -/
+theorem C10_restart_resume {ev : Ev St P I V E} {spec : P → I → Outcome V E} {Inv : St → Prop}
+    (hF : Faithful ev spec Inv) (prm : Params En P) (k : Kind) (exs : List (I × V)) (fuel : Nat)
+    (s : RSolver P) (st : St) (hst : Inv st) (en : En) (dl as : List Bool)
+    (pre : List P) (p : P) (post : List P) (hseg : segProgs prm k spec exs fuel s en = pre ++ p :: post)
+    (hpre : ∀ q ∈ pre, verdict k spec exs q = .ok false) (hp : verdict k spec exs p = .ok true)
+    (hdl : ∀ b ∈ dl.take (pre.length + 1), b = false) :
+    (solveR prm (test k ev exs) fuel s st en dl (true :: as)).yielded = [p] ∧
+    (solveR prm (test k ev exs) fuel s st en dl (true :: as)).status = .finished .accepted ∧
+    (solveR prm (test k ev exs) fuel s st en dl (false :: as)).yielded =
+      p :: specYields (verdict k spec exs) (sat spec exs) post (dl.drop (pre.length + 1)) as ∧
+    (solveR prm (test k ev exs) fuel s st en dl []).yielded = [p] ∧
+    (solveR prm (test k ev exs) fuel s st en dl []).status = .suspended := by
+  obtain ⟨b1, b2, b3, b4, b5⟩ := C10_resume hF k exs Solver.init st hst pre p post dl as hpre hp hdl
+  obtain ⟨t1, t2, _, _⟩ := C10_restart_refines hF prm k exs fuel s st hst en dl (true :: as) Solver.init
+  obtain ⟨f1, _, _, _⟩ := C10_restart_refines hF prm k exs fuel s st hst en dl (false :: as) Solver.init
+  obtain ⟨n1, n2, _, _⟩ := C10_restart_refines hF prm k exs fuel s st hst en dl [] Solver.init
+  rw [hseg] at t1 t2 f1 n1 n2
+  exact ⟨by rw [t1, b1], toBase_accepted (by rw [t2, b2]), by rw [f1, b3], by rw [n1, b4],
+    toBase_suspended (by rw [n2, b5])⟩
+
+/-- **C10_restart_segments.** What the segmented enumeration is.  (1) Its first entry is the first
+    program of the given enumerator.  (2) Every entry is the program at its position of its
+    enumerator's stream, and the solver object then holds: `_programs` = number of entries before,
+    `_data` = the earlier programs of positive score with their scores, in order.  (3) After an entry
+    `a` the next entry `b` is the next program of the same enumerator when the criterion — evaluated on
+    the solver object after the bookkeeping for `a` — does not fire; when it fires, `b` is the first
+    program of the enumerator `restart a.en _data`, `_restarts` is one more and `_last_size` is
+    `len(_data)`. -/
+theorem C10_restart_segments [DecidableEq V] (prm : Params En P) (k : Kind) (spec : P → I → Outcome V E)
+    (exs : List (I × V)) (fuel : Nat) (s : RSolver P) (en : En) :
+    (∀ e post, segOf prm k spec exs fuel s en = e :: post → e.en = en ∧ e.pos = 0) ∧
+    (∀ pre e post, segOf prm k spec exs fuel s en = pre ++ e :: post →
+      prm.stream e.en e.pos = some e.p ∧ e.s.self.programs = pre.length ∧
+      e.s.data = dataOf (pureTest k spec exs) (pre.map (·.p))) ∧
+    (∀ pre a b post, segOf prm k spec exs fuel s en = pre ++ a :: b :: post →
+      ∃ s2 : RSolver P,
+        s2.data = dataOf (pureTest k spec exs) ((pre ++ [a]).map (·.p)) ∧ s2.restarts = a.s.restarts ∧
+        s2.lastSize = a.s.lastSize ∧ s2.self.programs = pre.length + 1 ∧
+        ((prm.criterion s2 = false ∧ b.en = a.en ∧ b.pos = a.pos + 1 ∧ b.s.restarts = a.s.restarts ∧
+            b.s.lastSize = a.s.lastSize) ∨
+         (prm.criterion s2 = true ∧ b.en = prm.restart a.en s2.data ∧ b.pos = 0 ∧
+            b.s.restarts = a.s.restarts + 1 ∧ b.s.lastSize = s2.data.length))) := by
+  refine ⟨?_, ?_, ?_⟩
+  · intro e post h
+    obtain ⟨_, h2, h3, _⟩ := segRun_head h
+    exact ⟨h2, h3⟩
+  · intro pre e post h
+    obtain ⟨g1, g2, g3, _, _⟩ := segRun_entry fuel (initTaskR s) en 0 pre e post h
+    exact ⟨g1, by simpa [initTaskR, initTask] using g2, by simpa [initTaskR] using g3⟩
+  · intro pre a b post h
+    obtain ⟨ok, sc, hta, hb⟩ := segRun_next fuel (initTaskR s) en 0 pre a b post h
+    obtain ⟨_, g2, g3, _, _⟩ := segRun_entry fuel (initTaskR s) en 0 pre a (b :: post) h
+    obtain ⟨s2, q1, _, _, q4, q5, q6, hc⟩ := afterTest_cases prm (testedS a.s sc) a.p a.en (a.pos + 1)
+    refine ⟨s2, ?_, q4, q5, ?_, ?_⟩
+    · rw [q6]
+      simp only [testedS, countedS, g3, initTaskR, List.nil_append, List.map_append, List.map_cons, List.map_nil]
+      simp only [dataOf, List.filterMap_append, List.filterMap_cons, List.filterMap_nil, hta]
+      by_cases hp : 0 < sc.num <;> simp [hp]
+    · rw [q1]; simp [testedS, countedS, g2, initTaskR, initTask]
+    · rcases hc with ⟨c1, c2⟩ | ⟨c1, c2⟩
+      · rw [c2] at hb
+        simp only [Prod.mk.injEq] at hb
+        obtain ⟨e1, e2, e3⟩ := hb
+        exact Or.inl ⟨c1, e2, e3, by rw [e1, q4]; rfl, by rw [e1, q5]; rfl⟩
+      · rw [c2] at hb
+        simp only [Prod.mk.injEq] at hb
+        obtain ⟨e1, e2, e3⟩ := hb
+        exact Or.inr ⟨c1, e2, e3, by rw [e1]; simp [q4, testedS, countedS], by rw [e1]⟩
+
+/-- **C10_restart_no_restart.** With a criterion that never fires, on an enumerator whose stream is
+    the list `es`, given more fuel than `es` has programs, the restart solver behaves exactly like
+    its sub-solver on `es` (section A): same yielded programs, same end (the end of `es` being
+    StopIteration as the code is, a normal end after the repair C10-F2; never out of fuel), same
+    counter, same evaluator state, no restart, and the same `get_stats("programs")` whenever the meta
+    solver's count equals `statsBase` before the task (always, after the repair C10-F3). -/
+theorem C10_restart_no_restart {ev : Ev St P I V E} {spec : P → I → Outcome V E} {Inv : St → Prop}
+    (hF : Faithful ev spec Inv) (prm : Params En P) (k : Kind) (exs : List (I × V)) (fuel : Nat)
+    (s : RSolver P) (st : St) (hst : Inv st) (en : En) (dl as : List Bool)
+    (hc : ∀ s, prm.criterion s = false) (es : List P) (hs : ∀ i, prm.stream en i = es[i]?)
+    (hfuel : es.length < fuel) :
+    (solveR prm (test k ev exs) fuel s st en dl as).yielded = (solve (test k ev exs) s.self st es dl as).yielded ∧
+    (solveR prm (test k ev exs) fuel s st en dl as).status.toBase = (solve (test k ev exs) s.self st es dl as).status ∧
+    (solveR prm (test k ev exs) fuel s st en dl as).status ≠ .outOfFuel ∧
+    (solveR prm (test k ev exs) fuel s st en dl as).solver.self.programs =
+      (solve (test k ev exs) s.self st es dl as).solver.programs ∧
+    (solveR prm (test k ev exs) fuel s st en dl as).st = (solve (test k ev exs) s.self st es dl as).st ∧
+    (solveR prm (test k ev exs) fuel s st en dl as).solver.restarts = 0 ∧
+    (statsBase prm.fixStats (initTaskR s) = s.self.statsPrograms →
+      (solveR prm (test k ev exs) fuel s st en dl as).solver.self.statsPrograms =
+        (solve (test k ev exs) s.self st es dl as).solver.statsPrograms) := by
+  have hT := refinesS_of_faithful hF k exs
+  have hseg : segProgs prm k spec exs fuel s en = cutAtError (pureTest k spec exs) es := by
+    have := segEnum_no_restart_cut (tp := pureTest k spec exs) hc en es hs fuel (initTaskR s) 0
+    simp only [segEnum, List.drop_zero] at this
+    rw [segProgs, segOf, this, List.take_of_length_le (by omega)]
+  obtain ⟨h1, h2, h3, h4⟩ := C10_restart_refines hF prm k exs fuel s st hst en dl as s.self
+  have hcut : solve (test k ev exs) s.self st (segProgs prm k spec exs fuel s en) dl as =
+      solve (test k ev exs) s.self st es dl as := by
+    rw [hseg]; exact base_cut hT es _ st dl as hst
+  rw [hcut] at h1 h2 h3 h4
+  have hclosed : ((solveR prm (test k ev exs) fuel s st en dl as).status = .finished .accepted ∨
+      (solveR prm (test k ev exs) fuel s st en dl as).status = .finished .timeout) ↔
+      ((solve (test k ev exs) s.self st es dl as).status = .finished .accepted ∨
+       (solve (test k ev exs) s.self st es dl as).status = .finished .timeout) := by
+    rw [← h2]
+    constructor
+    · rintro (h | h) <;> rw [h] <;> simp [RStatus.toBase]
+    · rintro (h | h)
+      · exact Or.inl (toBase_accepted h)
+      · exact Or.inr (toBase_timeout h)
+  refine ⟨h1, h2, ?_, h3, h4, ?_, ?_⟩
+  · intro hout
+    have hl := outOfFuel_length (prm := prm) hT fuel (initTaskR s) st en 0 dl as hst hout
+    have hle : (segProgs prm k spec exs fuel s en).length ≤ es.length := by
+      rw [hseg]
+      clear hseg hcut h1 h2 h3 h4 hclosed hs hfuel hl
+      induction es with
+      | nil => simp [cutAtError]
+      | cons p rest ih =>
+        simp only [cutAtError]
+        split <;> simp <;> omega
+    simp only [segProgs, segOf, List.length_map] at hle
+    omega
+  · rw [solveR, no_restart_restarts hc]; rfl
+  · intro hbase
+    by_cases hcl : (solveR prm (test k ev exs) fuel s st en dl as).status = .finished .accepted ∨
+        (solveR prm (test k ev exs) fuel s st en dl as).status = .finished .timeout
+    · have r1 := r_stats (prm := prm) (T := test k ev exs) fuel (initTaskR s) st en 0 dl as hcl
+      have b1 := (base_stats (T := test k ev exs) es (initTask s.self) st dl as).1 (hclosed.mp hcl)
+      simp only [solve, solveR] at r1 b1 h3 ⊢
+      rw [r1, b1, hbase, h3]; rfl
+    · have hfr : Frame (initTaskR s) (solveR prm (test k ev exs) fuel s st en dl as).solver := by
+        apply unclosed_frame
+        · intro h; exact hcl (Or.inl h)
+        · intro h; exact hcl (Or.inr h)
+      have b1 := (base_stats (T := test k ev exs) es (initTask s.self) st dl as).2 (fun h => hcl (hclosed.mpr h))
+      simp only [solve] at b1 ⊢
+      rw [hfr.selfStatsPrograms, b1]; rfl
+
+/-- **C10_restart_fuel.** The fuel of the model restricts nothing: a run that ends within its fuel
+    (accepted, deadline, end of a stream, exception, or left suspended by the caller) is the same —
+    yielded programs, end, solver object, evaluator state — with any larger amount of fuel.
+    (A run that uses up every amount of fuel is a `solve` that never returns: a criterion that fires
+    before a new program is reached re-enumerates the same programs for ever.) -/
+theorem C10_restart_fuel (prm : Params En P) (T : St → P → St × Except E (Bool × Score)) (fuel k : Nat)
+    (s : RSolver P) (st : St) (en : En) (dl as : List Bool)
+    (h : (solveR prm T fuel s st en dl as).status ≠ .outOfFuel) :
+    solveR prm T (fuel + k) s st en dl as = solveR prm T fuel s st en dl as :=
+  fuel_mono k fuel (initTaskR s) st en 0 dl as h
+
+/-- **C10_restart_evaluator_state.** A run leaves the evaluator in a faithful state. -/
+theorem C10_restart_evaluator_state {ev : Ev St P I V E} {spec : P → I → Outcome V E} {Inv : St → Prop}
+    (hF : Faithful ev spec Inv) (prm : Params En P) (k : Kind) (exs : List (I × V)) (fuel : Nat)
+    (s : RSolver P) (st : St) (hst : Inv st) (en : En) (dl as : List Bool) :
+    Inv (solveR prm (test k ev exs) fuel s st en dl as).st := by
+  rw [(C10_restart_refines hF prm k exs fuel s st hst en dl as Solver.init).2.2.2]
+  exact C10_evaluator_state hF k exs Solver.init st hst _ dl as
+
+/-- the sub-solver of a meta solver never counts a program: its `_programs` stays 0 and its
+    `_stats["programs"]` never moves (only `RestartPBESolver.solve` increments a counter, its own) -/
+def SubIdle (s : RSolver P) : Prop := s.sub.statsPrograms = 0 ∧ s.sub.programs = 0
+
+/-- one task keeps the sub-solver idle, whatever its end -/
+theorem C10_restart_sub_idle {ev : Ev St P I V E} {spec : P → I → Outcome V E} {Inv : St → Prop}
+    (hF : Faithful ev spec Inv) (prm : Params En P) (k : Kind) (exs : List (I × V)) (fuel : Nat)
+    (s : RSolver P) (st : St) (hst : Inv st) (en : En) (dl as : List Bool) (hs : SubIdle s) :
+    SubIdle (solveR prm (test k ev exs) fuel s st en dl as).solver := by
+  have hT := refinesS_of_faithful hF k exs
+  have h0 : (initTaskR s).sub.statsPrograms = 0 ∧ (initTaskR s).sub.programs = 0 := ⟨hs.1, rfl⟩
+  by_cases ha : (solveR prm (test k ev exs) fuel s st en dl as).status = .finished .accepted
+  · obtain ⟨pre, e, post, sc, hsplit, _, hsol⟩ :=
+      accepted_specR (prm := prm) hT fuel (initTaskR s) st en 0 dl as hst ha
+    obtain ⟨_, _, _, _, g5⟩ := segRun_entry fuel (initTaskR s) en 0 pre e post hsplit
+    rw [solveR, hsol]
+    cases hfx : prm.fixStats <;>
+      simp [SubIdle, closeR, closeTask, testedS, countedS, g5.subStatsPrograms, g5.subPrograms, h0.1, h0.2]
+  · by_cases ht : (solveR prm (test k ev exs) fuel s st en dl as).status = .finished .timeout
+    · obtain ⟨pre, e, post, hsplit, hsol⟩ :=
+        timeout_specR (prm := prm) hT fuel (initTaskR s) st en 0 dl as hst ht
+      obtain ⟨_, _, _, _, g5⟩ := segRun_entry fuel (initTaskR s) en 0 pre e post hsplit
+      rw [solveR, hsol]
+      cases hfx : prm.fixStats <;>
+        simp [SubIdle, closeR, closeTask, g5.subStatsPrograms, g5.subPrograms, h0.1, h0.2]
+    · have hfr := unclosed_frame (prm := prm) (T := test k ev exs) fuel (initTaskR s) st en 0 dl as ha ht
+      exact ⟨by rw [solveR, hfr.subStatsPrograms]; exact h0.1, by rw [solveR, hfr.subPrograms]; exact h0.2⟩
+
+/-- **C10_restart_session.** After any sequence of tasks (each with its own enumerator, examples,
+    clock, answers and fuel), `reset_stats()` and `clear_cache()` calls on one restart solver and one
+    evaluator: the evaluator is in a faithful state, and — from a solver whose sub-solver is idle, in
+    particular a new one — the sub-solver is still idle. -/
+theorem C10_restart_session {ev : Ev St P I V E} {spec : P → I → Outcome V E} {Inv : St → Prop}
+    (hF : Faithful ev spec Inv) (clear : St → St) (hclear : ∀ st, Inv (clear st)) (prm : Params En P) (k : Kind)
+    (ops : List (ROp P I V En)) (s : RSolver P) (st : St) (hst : Inv st) (hs : SubIdle s) :
+    Inv (runSessionR prm k ev clear s st ops).2 ∧ SubIdle (runSessionR prm k ev clear s st ops).1 := by
+  induction ops generalizing s st with
+  | nil => exact ⟨hst, hs⟩
+  | cons op rest ih =>
+    simp only [runSessionR]
+    cases op with
+    | task t en fuel =>
+      exact ih _ _ (C10_restart_evaluator_state hF prm k t.examples fuel s st hst en t.dl t.answers)
+        (C10_restart_sub_idle hF prm k t.examples fuel s st hst en t.dl t.answers hs)
+    | resetStats => exact ih _ _ hst ⟨rfl, hs.2⟩
+    | clearCache => exact ih _ _ (hclear st) hs
+
+theorem subIdle_init : SubIdle (RSolver.init : RSolver P) := ⟨rfl, rfl⟩
+
+/-- **C10_restart_stats_as_is.** What `get_stats("programs")` is as the code stands (C10-F3): after
+    any earlier session on a new restart solver, an accepted task leaves `get_stats("programs")`
+    *equal to the rank* of the accepted program in this task's segmented enumeration — the counts of
+    the earlier tasks are lost (while 'restarts' does accumulate, `C10_restart_rank`). -/
+theorem C10_restart_stats_as_is {ev : Ev St P I V E} {spec : P → I → Outcome V E} {Inv : St → Prop}
+    (hF : Faithful ev spec Inv) (clear : St → St) (hclear : ∀ st, Inv (clear st)) (prm : Params En P)
+    (hfx : prm.fixStats = false) (k : Kind) (before : List (ROp P I V En)) (st₀ : St) (hst : Inv st₀)
+    (exs : List (I × V)) (fuel : Nat) (en : En) (dl as : List Bool) :
+    let r := runSessionR prm k ev clear RSolver.init st₀ before
+    (solveR prm (test k ev exs) fuel r.1 r.2 en dl as).status = .finished .accepted →
+    ∃ pre e post, segOf prm k spec exs fuel r.1 en = pre ++ e :: post ∧
+      (solveR prm (test k ev exs) fuel r.1 r.2 en dl as).solver.self.statsPrograms = pre.length + 1 := by
+  intro r hend
+  obtain ⟨hinv, hidle⟩ := C10_restart_session hF clear hclear prm k before RSolver.init st₀ hst subIdle_init
+  obtain ⟨pre, e, post, h1, _, _, h4, _⟩ := C10_restart_rank hF prm k exs fuel r.1 r.2 hinv en dl as hend
+  refine ⟨pre, e, post, h1, ?_⟩
+  rw [h4]
+  have h0 : r.1.sub.statsPrograms = 0 := hidle.1
+  simp [statsBase, hfx, initTaskR, initTask, h0]
+
+/-! ### the real evaluator -/
+section dslR
+variable {σ : Type} [DecidableEq σ]
+
+/-- **C10_restart for the real evaluator** (C11 model of `DSLEvaluator.eval`, every DSL semantics,
+    cache on or off), after every earlier session on the same restart solver and evaluator: the
+    yielded programs are exactly the programs of the segmented enumeration whose *compositional*
+    value on every example input is the example output, in order, up to the first one answered True;
+    none of them is wrong. -/
+theorem C10_restart_dsl_yields (S : C11.Sem σ V E) (useCache : Bool) (prm : Params En (Tree σ)) (k : Kind)
+    (before : List (ROp (Tree σ) (List V) V En)) (exs : List (List V × V)) (fuel : Nat) (en : En)
+    (dl as : List Bool) :
+    let r := runSessionR prm k (dslEv S useCache) C11.clearCache RSolver.init [] before
+    let es := segProgs prm k (C11.specEval S) exs fuel r.1 en
+    (solveR prm (test k (dslEv S useCache) exs) fuel r.1 r.2 en dl as).yielded =
+      upToAccepted ((es.take (horizon (verdict k (C11.specEval S) exs) es dl)).filter (sat (C11.specEval S) exs)) as ∧
+    ∀ p ∈ (solveR prm (test k (dslEv S useCache) exs) fuel r.1 r.2 en dl as).yielded,
+      ∀ ex ∈ exs, C11.specEval S p ex.1 = .value ex.2 := by
+  intro r es
+  have hs := (C10_restart_session (dslEv_faithful S useCache) C11.clearCache (fun _ => cacheSound_nil S) prm k
+    before RSolver.init [] (cacheSound_nil S) subIdle_init).1
+  exact ⟨C10_restart_yields (dslEv_faithful S useCache) prm k exs fuel r.1 r.2 hs en dl as,
+    fun p hp => (C10_restart_never_wrong (dslEv_faithful S useCache) prm k exs fuel r.1 r.2 hs en dl as p hp).2⟩
+
+end dslR
+
+end restart
+
+/-! ### non-vacuity and findings (restart) -/
+namespace ExampleR
+open Example (spec exs)
+
+/-- enumerators are numbered: 0 ↦ the stream `1, var0, var0+1, 1/var0, 1+var0`; every restarted
+    enumerator n+1 ↦ `1+var0, 1, var0+1`; enumerator 99 is empty -/
+def stream : Nat → Nat → Option Nat
+  | 0, i => [0, 1, 2, 3, 4][i]?
+  | 99, _ => none
+  | _, i => [4, 0, 2][i]?
+
+/-- restart when two new data items were saved; the restarted enumerator is the next number -/
+def prm (fixNext fixStats : Bool) : Params Nat Nat :=
+  ⟨stream, fun s => decide (s.data.length - s.lastSize > 1), fun en _ => en + 1, fixNext, fixStats⟩
+
+def run (fx fs : Bool) (k : Kind) (s : RSolver Nat) (en : Nat) (dl as : List Bool) :=
+  solveR (prm fx fs) (test k (pureEv spec) exs) 50 s () en dl as
+
+-- scores under the naive test: program 0 passes one example of two (saved), 1 none, 2 both (a solution, saved
+-- after it was refused): the criterion fires after program 2; the search restarts on enumerator 1
+example : segProgs (prm false false) .naive spec exs 7 RSolver.init 0 = [0, 1, 2, 4, 0, 4, 0] := by decide
+example : (segOf (prm false false) .naive spec exs 7 RSolver.init 0).map (fun e => (e.en, e.pos)) =
+    [(0, 0), (0, 1), (0, 2), (1, 0), (1, 1), (2, 0), (2, 1)] := by decide
+-- refuse the first solution, refuse the second (found after the restart), accept the third: rank 6, two restarts
+example : (run false false .naive RSolver.init 0 [] [false, false, true]).yielded = [2, 4, 4] := by decide
+example : (run false false .naive RSolver.init 0 [] [false, false, true]).status = .finished .accepted := by decide
+example : (run false false .naive RSolver.init 0 [] [false, false, true]).solver.self.statsPrograms = 6 := by decide
+example : (run false false .naive RSolver.init 0 [] [false, false, true]).solver.statsRestarts = 2 := by decide
+example : (run false false .naive RSolver.init 0 [] [false, false, true]).solver.data.map (·.1) = [0, 2, 4, 0] := by decide
+-- the cut-off test gives program 0 the score 1/2 as well, program 1 the score 0
+example : (run false false .cutoff RSolver.init 0 [] [false]).yielded = [2, 4] := by decide
+-- the caller stops answering; deadline before the fifth program
+example : (run false false .naive RSolver.init 0 [] []).status = .suspended := by decide
+example : (run false false .naive RSolver.init 0 [false, false, false, false, true] [false, false]).status
+    = .finished .timeout := by decide
+-- a criterion that fires for ever: the fuel runs out (the real solver does not return)
+example : (solveR (prm false false) (test .naive (pureEv spec) exs) 50 RSolver.init () 0 [] (List.replicate 60 false)).status
+    = .outOfFuel := by decide
+-- hypotheses of C10_restart_resume
+example : segProgs (prm false false) .naive spec exs 7 RSolver.init 0 = [0, 1] ++ 2 :: [4, 0, 4, 0] ∧
+    (∀ q ∈ [0, 1], verdict .naive spec exs q = .ok false) ∧ verdict .naive spec exs 2 = .ok true :=
+  ⟨by decide, by intro q hq; simp at hq; rcases hq with rfl | rfl <;> rfl, rfl⟩
+-- hypothesis of C10_restart_never_skips
+example : [0, 1].length < (run false false .naive RSolver.init 0 [] [false]).solver.self.programs := by decide
+-- hypothesis of C10_restart_no_restart: a criterion that never fires, a list as stream
+example : ∀ i, stream 0 i = [0, 1, 2, 3, 4][i]? := fun _ => rfl
+
+/-- **finding C10-F2** (as the code is): an enumeration that is exhausted without an accepted
+    solution ends the generator with `StopIteration` raised inside it — a RuntimeError for the caller —
+    where the plain solver ends normally; with the repair `next(gen, None)` it ends normally. -/
+theorem finding_C10_restart_stop_iteration :
+    (solveR (prm false false) (test .naive (pureEv spec) exs) 50 RSolver.init () 99 [] []).status
+      = .finished .stopIteration ∧
+    (solve (test .naive (pureEv spec) exs) Solver.init () [] [] []).status = .finished .exhausted ∧
+    (solveR (prm true false) (test .naive (pureEv spec) exs) 50 RSolver.init () 99 [] []).status
+      = .finished .exhausted ∧
+    -- … also after programs were tested and a solution refused: enumerator 3 serves `1+var0, 1, var0+1` once
+    (solveR ⟨stream, fun _ => false, fun en _ => en, false, false⟩ (test .naive (pureEv spec) exs) 50
+      RSolver.init () 3 [] [false, false]).status = .finished .stopIteration ∧
+    (solveR ⟨stream, fun _ => false, fun en _ => en, false, false⟩ (test .naive (pureEv spec) exs) 50
+      RSolver.init () 3 [] [false, false]).yielded = [4, 2] := by decide
+
+/-- **finding C10-F3** (as the code is): a second task on the same restart solver.  The first task
+    accepts at rank 3, the second at rank 1: `get_stats("programs")` is 1 afterwards — it *fell* by 2
+    instead of growing by 1 — while 'restarts' and the plain solver's 'programs' accumulate; and
+    `_stats["time"]` holds three summands after two tasks.  With the repair: 3 + 1 and two summands. -/
+theorem finding_C10_restart_stats_not_cumulative :
+    let s1 := (run false false .naive RSolver.init 0 [] [true]).solver
+    let s2 := (run false false .naive s1 3 [] [true]).solver
+    s1.self.statsPrograms = 3 ∧ s2.self.statsPrograms = 1 ∧ s2.self.statsCloses = 3 ∧
+    ¬ (s1.self.statsPrograms = s1.sub.statsPrograms) ∧
+    (let t1 := (run false true .naive RSolver.init 0 [] [true]).solver
+     let t2 := (run false true .naive t1 3 [] [true]).solver
+     t2.self.statsPrograms = 3 + 1 ∧ t2.self.statsCloses = 2) := by decide
+
+end ExampleR
+
+/-! ### the grammar `_restart_` builds -/
+section grammar
+open PS.G PS.C10.RG
+variable {S : Type} [DecidableEq S]
+
+/-- **C10_restart_grammar.** What `_restart_` (restart_pbe_solver.py:99-115) hands to
+    `enumerator.clone`: for every grammar `G`, every weight table `tags0` that tags every rule of `G`
+    (e.g. `ProbDetGrammar.uniform(G)`, or the result of an earlier restart), all data derivable in `G`
+    (they were enumerated from it) and every prior, the computation does not raise and returns
+    `normalise u` where
+      * `u` tags exactly the rules `tags0` tags, and the result still tags every rule of `G`
+        (so the statement applies to the next restart);
+      * the weight of a rule in `u` is its accumulated score (Σ over the data of score × number of
+        uses of the rule in the derivation of the program) plus `prior × 1/|row|` when `prior > 0`;
+      * the result's weights are those of `u` divided by the sum of their row — *proportional to the
+        accumulated scores* (plus prior) — and every row whose sum is not 0 sums to 1 (*normalised*);
+      * with `prior > 0` and non-negative scores every rule of `G` has a positive weight in `u`
+        (*full support*). -/
+theorem C10_restart_grammar (G : TT S Unit) (tags0 : Tags S Unit) (data : List (Prog × Rat)) (prior : Rat)
+    (hcov : Covers G tags0) (hdata : ∀ d ∈ data, gen G d.1 G.start = true) :
+    ∃ u, restartTags G tags0 data prior = some (normalise u) ∧
+      (∀ nt P, (tagOf u nt P).isSome = (tagOf tags0 nt P).isSome) ∧
+      Covers G (normalise u) ∧
+      (∀ nt P, (tagOf tags0 nt P).isSome = true →
+        weight u nt P = accScore G data nt P + (if 0 < prior then prior * weight (uniform G) nt P else 0)) ∧
+      (∀ nt row, AList.lookup nt u = some row →
+        (∀ P, weight (normalise u) nt P = weight u nt P / rowSum row) ∧
+        AList.lookup nt (normalise u) = some (normaliseRow row) ∧
+        (rowSum row ≠ 0 → rowSum (normaliseRow row) = 1)) ∧
+      (0 < prior → (∀ d ∈ data, 0 ≤ d.2) → ∀ nt P, (G.rule? nt P).isSome = true →
+        0 < weight (uniform G) nt P → 0 < weight u nt P) := by
+  obtain ⟨u, h1, h2, h3⟩ := restartTags_spec G tags0 data prior hcov hdata
+  refine ⟨u, h1, h2, ?_, h3, fun nt row h => normalise_weights u nt row h, ?_⟩
+  · intro nt P h
+    rw [isSome_tagOf_normalise, h2]
+    exact hcov nt P h
+  · intro hp hnn nt P hr hu
+    rw [h3 nt P (hcov nt P hr)]
+    simp only [hp, if_true]
+    have hacc : 0 ≤ accScore G data nt P := by
+      unfold accScore
+      clear h1 h2 h3 hdata
+      induction data with
+      | nil => simp
+      | cons d rest ih =>
+        simp only [List.map_cons, List.sum_cons]
+        have h1 : 0 ≤ d.2 * (uses (derivation G d.1 G.start) nt P : Rat) :=
+          Rat.mul_nonneg (hnn d (by simp)) (by exact_mod_cast Nat.zero_le _)
+        have h2 := ih (fun e he => hnn e (by simp [he]))
+        exact Rat.add_nonneg h1 h2
+    have hpos : 0 < prior * weight (uniform G) nt P := Rat.mul_pos hp hu
+    grind
+
+/-- **C10_restart_grammar_distribution.** With a positive prior and non-negative scores (they are
+    fractions in [0, 1]: `C10_score`), on a grammar every non-terminal of which has a rule, from a
+    table whose rows mirror the grammar's (`ProbDetGrammar.uniform(G)`: `covers_uniform`,
+    `rowsOf_uniform`; or the result of an earlier restart — the conclusion re-establishes the
+    hypotheses): `_restart_` does not raise and the grammar it hands to `clone` is a probability
+    distribution with full support — every row sums to exactly 1 and every rule has a positive weight. -/
+theorem C10_restart_grammar_distribution (G : TT S Unit) (tags0 : Tags S Unit) (data : List (Prog × Rat))
+    (prior : Rat)
+    (hG : ∀ nt rs, AList.lookup nt G.rules = some rs → rs ≠ [] ∧ (AList.keys rs).Nodup)
+    (hcov : Covers G tags0) (hrows : RowsOf G tags0) (hdata : ∀ d ∈ data, gen G d.1 G.start = true)
+    (hnn : ∀ d ∈ data, 0 ≤ d.2) (hp : 0 < prior) :
+    ∃ t, restartTags G tags0 data prior = some t ∧ Covers G t ∧ RowsOf G t ∧
+      ∀ nt row, AList.lookup nt t = some row →
+        rowSum row = 1 ∧ ∀ P ∈ AList.keys row, 0 < weight t nt P :=
+  restartTags_distribution G tags0 data prior hG hcov hrows hdata hnn hp
+
+/-- **C10_restart_grammar_spec.** Model = specification: the weight `_restart_` gives to rule `P` of a
+    non-terminal is `specWeight` — (accumulated score of `P` + prior/|row|) divided by the sum of
+    these numbers over the rules of the non-terminal: *proportional to the accumulated scores*,
+    smoothed by the prior. -/
+theorem C10_restart_grammar_spec (G : TT S Unit) (tags0 : Tags S Unit) (data : List (Prog × Rat)) (prior : Rat)
+    (hcov : Covers G tags0) (hrows : RowsOf G tags0) (hdata : ∀ d ∈ data, gen G d.1 G.start = true) :
+    ∃ t, restartTags G tags0 data prior = some t ∧
+      ∀ nt rs, AList.lookup nt G.rules = some rs → (AList.keys rs).Nodup →
+        ∀ P ∈ AList.keys rs, weight t nt P = specWeight G data prior nt (AList.keys rs) P :=
+  restartTags_specWeight G tags0 data prior hcov hrows hdata
+
+namespace ExampleG
+/-- a grammar with two non-terminals: `int@0 → f(int@1) | a`, `int@1 → a | b` -/
+def int : Ty := .base "int"
+def f : Sym := .prim "f" (.arrow int int)
+def a : Sym := .prim "a" int
+def b : Sym := .prim "b" int
+def nt0 : NT Nat Unit := (int, (0, ()))
+def nt1 : NT Nat Unit := (int, (1, ()))
+def G : TT Nat Unit := ⟨nt0, [(nt0, [(f, ([(int, 1)], ())), (a, ([], ()))]), (nt1, [(a, ([], ())), (b, ([], ()))])]⟩
+def fa : Prog := .node f [.node a []]
+def data : List (Prog × Rat) := [(fa, 1 / 2), (.node a [], 1), (fa, 1)]
+
+-- hypotheses: the data are derivable; the uniform table tags every rule (covers_uniform)
+example : ∀ d ∈ data, gen G d.1 G.start = true := by decide
+example : Covers G (uniform G) := covers_uniform G
+example : RowsOf G (uniform G) := rowsOf_uniform G
+example : ∀ nt rs, AList.lookup nt G.rules = some rs → rs ≠ [] ∧ (AList.keys rs).Nodup := by
+  intro nt rs h
+  simp only [G, AList.lookup] at h
+  split at h
+  · cases h; exact ⟨by simp, by decide⟩
+  · split at h
+    · cases h; exact ⟨by simp, by decide⟩
+    · cases h
+example : ∀ d ∈ data, (0 : Rat) ≤ d.2 := by decide +kernel
+-- accumulated scores: f@0 used by `f a` twice (1/2 + 1), a@0 once (1), a@1 twice (3/2), b@1 never
+example : accScore G data nt0 f = 3 / 2 ∧ accScore G data nt0 a = 1 ∧ accScore G data nt1 a = 3 / 2 ∧
+    accScore G data nt1 b = 0 := by decide +kernel
+-- the grammar after the restart with prior 1/4: (3/2 + 1/8) / (5/2 + 1/4), …; `b` keeps a positive weight
+example : (restartTags G (uniform G) data (1 / 4)).map (fun t => (weight t nt0 f, weight t nt0 a, weight t nt1 a, weight t nt1 b))
+    = some (13 / 22, 9 / 22, 13 / 14, 1 / 14) := by decide +kernel
+example : specWeight G data (1 / 4) nt1 [a, b] b = 1 / 14 := by decide +kernel
+-- without prior: proportional to the scores alone, `b` gets 0
+example : (restartTags G (uniform G) data 0).map (fun t => (weight t nt0 f, weight t nt1 b)) = some (3 / 5, 0) := by
+  decide +kernel
+end ExampleG
+end grammar
 
 end PS.C10
